@@ -332,6 +332,66 @@ func ruleGate(c *Ctx) {
 			}
 		}
 	}
+	// accepting returns: in every function that owns a gate on a []byte parameter, a return
+	// that can report success (nil error / a bool other than the constant false) is
+	// dominated by the valid edge of a gate on that parameter — ill-formed input is
+	// never accepted through a side door in front of the gate
+	for _, fn := range libFuncs {
+		for pi, p := range fn.Params {
+			if !isByteSlice(p.Type()) {
+				continue
+			}
+			gates := b.validGates(fn, p)
+			if len(gates) == 0 {
+				continue
+			}
+			_ = pi
+			res := fn.Signature.Results()
+			for _, r := range liveReturns(fn) {
+				accepting := false
+				last := retVal(r, res.Len()-1)
+				switch {
+				case isErrorType(res.At(res.Len()-1).Type()):
+					accepting = !b.definitelyNonNilErr(last, r.Block(), 0)
+				default:
+					if bt, ok := res.At(res.Len()-1).Type().Underlying().(*types.Basic); ok && bt.Kind() == types.Bool {
+						if k, isK := boolConst(last); !isK || k {
+							accepting = true
+						}
+					} else {
+						accepting = true
+					}
+				}
+				if !accepting {
+					continue
+				}
+				var conds []string
+				for _, e := range b.controlDeps(r.Block()) {
+					if iff, ok := e.From.Instrs[len(e.From.Instrs)-1].(*ssa.If); ok {
+						d := describeCond(iff.Cond)
+						if e.Succ == 1 {
+							d = "!(" + d + ")"
+						}
+						conds = append(conds, d)
+					}
+				}
+				sort.Strings(conds)
+				key := fmt.Sprintf("%s: accepting return under [%s] lies behind json.Valid(%s)", fname(fn), strings.Join(conds, "; "), p.Name())
+				dom := false
+				for _, g := range gates {
+					if edgeDominates(g.blk, g.succ, r.Block()) {
+						dom = true
+					}
+				}
+				if dom {
+					l.add("R-GATE", "v5", key, b.posOf(r), Discharged, "dominated by the valid edge of the gate", true)
+				} else {
+					l.add("R-GATE", "v5", key, b.posOf(r), Violated, "this return can report success without "+p.Name()+" having passed json.Valid: an ill-formed text is accepted (no error / true) instead of rejected", true)
+				}
+			}
+		}
+	}
+
 	// gates census
 	ng := 0
 	for _, fn := range libFuncs {
@@ -476,4 +536,58 @@ func ruleMergeWire(c *Ctx) {
 			}
 		}
 	}
+}
+
+// describeCond renders a branch condition in a position-free, name-based form
+// (used to key obligations by role).
+func describeCond(v ssa.Value) string {
+	switch x := v.(type) {
+	case *ssa.BinOp:
+		return describeCond(x.X) + " " + x.Op.String() + " " + describeCond(x.Y)
+	case *ssa.UnOp:
+		if x.Op == token.NOT {
+			return "!" + describeCond(x.X)
+		}
+		if x.Op == token.MUL {
+			if fa, ok := x.X.(*ssa.FieldAddr); ok {
+				return describeCond(fa.X) + "." + fieldName(fa.X.Type(), fa.Field)
+			}
+			if g, ok := x.X.(*ssa.Global); ok {
+				return g.Name()
+			}
+		}
+		return "load"
+	case *ssa.Call:
+		if bi, ok := x.Call.Value.(*ssa.Builtin); ok {
+			var as []string
+			for _, a := range x.Call.Args {
+				as = append(as, describeCond(a))
+			}
+			return bi.Name() + "(" + strings.Join(as, ", ") + ")"
+		}
+		var as []string
+		for _, a := range x.Call.Args {
+			as = append(as, describeCond(a))
+		}
+		return calleeLabel(&x.Call) + "(" + strings.Join(as, ", ") + ")"
+	case *ssa.Parameter:
+		return x.Name()
+	case *ssa.Const:
+		if x.Value == nil {
+			return "nil"
+		}
+		return x.Value.String()
+	case *ssa.Phi:
+		return "compound(" + x.Comment + ")"
+	case *ssa.Extract:
+		return describeCond(x.Tuple) + "#" + fmt.Sprint(x.Index)
+	case *ssa.Convert:
+		return describeCond(x.X)
+	case *ssa.ChangeType:
+		return describeCond(x.X)
+	}
+	if al, ok := v.(*ssa.Alloc); ok && al.Comment != "" {
+		return al.Comment
+	}
+	return "_"
 }
